@@ -72,6 +72,7 @@ def run(ck):
             pres.append(('fasta-width%d' % 7, [gen.fasta(names, seqs, 7)]))
             pres.append(('fasta-crlf-blank', [ref.replace('\n', '\r\n').replace('>', '\r\n>')[2:] + '\r\n\r\n']))
             pres.append(('fasta-trailing-blank-digits', ['\n'.join((l + '  ' if not l.startswith('>') else l) for l in gen.fasta(names, [''.join(c + ('1' if i % 9 == 8 else '') for i, c in enumerate(s)) for s in seqs]).split('\n'))]))
+            pres.append(('fasta-no-final-newline', [ref.rstrip('\n')]))
             for dens in (0.3, 0.95):
                 rows = gapify(rng, seqs, dens)
                 pres.append(('afa-%d%%' % int(dens * 100), [gen.fasta(names, rows, rng.choice([60, 11, 200]))]))
@@ -82,6 +83,7 @@ def run(ck):
             if len(seqs) >= 4:
                 cut = rng.range(2, len(seqs) - 2) if len(seqs) > 4 else 2
                 pres.append(('split-2', [gen.fasta(names[:cut], seqs[:cut]), gen.fasta(names[cut:], seqs[cut:])]))
+                pres.append(('split-2-first-without-final-newline', [gen.fasta(names[:cut], seqs[:cut]).rstrip('\n'), gen.fasta(names[cut:], seqs[cut:])]))
                 pres.append(('split-with-empty-file', [gen.fasta(names[:cut], seqs[:cut]), '', gen.fasta(names[cut:], seqs[cut:])]))
             if k % 8 == 5:
                 # boundary presentations aimed at the constants of the readers: the 50-sequence sample once used by
